@@ -22,7 +22,7 @@ ASSUMPTIONS = ["the two float matrices are extracted from the real code by apply
 EXPLANATION = ("C06 (partial): for every listed shape / coordinate set / (oversamp, width), for ALL complex x in the unit box, every output sample of nufft "
                "differs from the exact non-uniform DFT by at most 3 % (0.3 % at oversamp 2) of the NDFT's operator infinity norm, and nufft_adjoint from the "
                "NDFT's conjugate transpose by the same fraction of its norm; coordinates outside [-N/2, N/2) are included (periodicity).")
-CONFIG_BUDGET_S = {"quick": 900, "thorough": 3600}
+CONFIG_BUDGET_S = {"quick": 900, "thorough": 1800}
 TOL = {(1.25, 4): 0.03, (1.3, 4): 0.03, (1.375, 4): 0.03, (2, 4): 0.003, (1.25, 6): 0.003, (2, 6): 0.0003}
 
 
